@@ -1064,3 +1064,19 @@ impl MqttClientImpl {
     pub(crate) fn verif_set_current_state(&mut self, state: ClientImplState) { self.current_state = state; }
     pub(crate) fn verif_set_desired_state(&mut self, state: ClientImplState) { self.desired_state = state; }
 }
+
+// verification hooks for the client-implementation facade (verif/client2.rs): read-only views of the private lifecycle fields
+#[cfg(feature = "verif")]
+impl MqttClientImpl {
+    pub(crate) fn verif_desired_state(&self) -> ClientImplState { self.desired_state }
+    /// 0 = no stop options, 1 = stop options without a DISCONNECT, 2 = stop options carrying a DISCONNECT
+    pub(crate) fn verif_stop_shape(&self) -> u8 {
+        match &self.desired_stop_options { None => 0, Some(options) => if options.disconnect.is_none() { 1 } else { 2 } }
+    }
+    /// None = no CONNACK remembered, Some(true) = a successful one
+    pub(crate) fn verif_last_connack_success(&self) -> Option<bool> {
+        self.last_connack.as_ref().map(|connack| connack.reason_code == ConnectReasonCode::Success)
+    }
+    pub(crate) fn verif_has_last_disconnect(&self) -> bool { self.last_disconnect.is_some() }
+    pub(crate) fn verif_last_error(&self) -> Option<&GneissError> { self.last_error.as_ref() }
+}
